@@ -60,9 +60,11 @@ def scenarios(quick):
     add("scan:growth", big, ["scanner 0 0", "scan target=s0 via=mem ml=0 data=@5", "scan target=s0 via=mem ml=0 data=@5", "sdestroy 0"])
     # the same growth reached from the other verification engines: a hex string whose atom lies AFTER a jump (prefix verified backwards by the fast hex engine, which reports
     # every candidate through the match callback), a regexp verified backwards, a chained string - each with enough matches for a second notebook page
-    big2 = ["compiler 0", "add 0 - " + yv.hx('rule fastback { strings: $h = { 41 [1-2] 62 63 64 65 } condition: #h > 10 } rule reback { strings: $r = /A.{1,2}?bcde/ condition: #r > 10 }'),
-            "getrules 0 0", "cdestroy 0", "blob 5 " + yv.hx(b"AxbcdeAxybcde" * 5000)]
-    add("scan:growth:backward-verification", big2, ["scanner 0 0", "scan target=s0 via=mem ml=0 data=@5", "scan target=s0 via=mem ml=0 data=@5", "sdestroy 0"])
+    # (one string per scenario: with two strings matching at every occurrence the page boundary would always fall to the same one)
+    for nm_, src_ in (("hex-atom-after-jump", 'rule fastback { strings: $h = { 41 [1-2] 62 63 64 65 } condition: #h > 10 }'), ("regexp", 'rule reback { strings: $r = /A.{1,2}?bcde/ condition: #r > 10 }'),
+                      ("hex-alternatives", 'rule altback { strings: $h = { 41 ( 78 | 78 79 ) 62 63 64 65 } condition: #h > 10 }')):
+        big2 = ["compiler 0", "add 0 - " + yv.hx(src_), "getrules 0 0", "cdestroy 0", "blob 5 " + yv.hx(b"AxbcdeAxybcde" * 2500)]
+        add("scan:growth:backward-verification:" + nm_, big2, ["scanner 0 0", "scan target=s0 via=mem ml=0 data=@5", "scan target=s0 via=mem ml=0 data=@5", "sdestroy 0"])
     # more API groups: include callback (file name stack, nested lexer buffers), atom quality table, add from bytes / file, rules-level defines + scan from fd
     incs = ["incclear", "incfile inc_a.yar " + yv.hx('include "inc_b.yar"\nrule ia { strings: $a = "ia" condition: $a }'), "incfile inc_b.yar " + yv.hx('rule ib { condition: true }')]
     add("compile:include", incs, ["compiler 0 inc=1", "add 0 - " + yv.hx('include "inc_a.yar"\nrule top { condition: ia and ib }'), "getrules 0 0", "cdestroy 0", "rdestroy 0"])
